@@ -13,6 +13,17 @@ import (
 
 func init() { register("C02", runC02) }
 
+// c02Merge is the client: merge.Merge, with a panic (an update that does not fit the state it is
+// applied to) reported as an error instead of ending the harness.
+func c02Merge(state, u interface{}) (next interface{}, err error) {
+	defer func() {
+		if r := recover(); r != nil {
+			err = fmt.Errorf("merge.Merge panicked: %v", r)
+		}
+	}()
+	return merge.Merge(state, u)
+}
+
 type c02Gen struct {
 	id      string
 	query   string
@@ -114,7 +125,7 @@ func c02One(c *Ctx, m *Model, cs cnCase) {
 		// the client: start from nothing, merge every update in order
 		var state interface{}
 		for _, u := range g.updates {
-			next, err := merge.Merge(state, u)
+			next, err := c02Merge(state, u)
 			if err != nil {
 				rep.Fail("impl_ne_spec", nil, cs, map[string]interface{}{"what": "the client cannot apply an update", "error": err.Error(), "id": g.id})
 				return
